@@ -106,6 +106,18 @@ var extraSpecs = []graphSpec{
 		y := mkTask("y", 0, exec.TaskDep{Head: p0, Partition: 0})
 		return &graph{"forkphase", []*exec.Task{p0, p1, x, y}, []*exec.Task{x, y}}
 	}},
+	{"wide", 11, func() *graph {
+		// a phase of 10 producers (more than Eval's completion channel buffers: 8) read by one consumer
+		var ps []*exec.Task
+		for i := 0; i < 10; i++ {
+			ps = append(ps, mkTask("p", i))
+		}
+		for _, p := range ps {
+			p.Group = ps
+		}
+		c := mkTask("c", 0, exec.TaskDep{Head: ps[0], Partition: 0})
+		return &graph{"wide", append(append([]*exec.Task{}, ps...), c), []*exec.Task{c}}
+	}},
 	{"reshuffle", 5, func() *graph {
 		// a phase whose members have DIFFERENT one-to-one dependencies (the re-shuffle
 		// tasks the compiler inserts over a reused result, a Materialize boundary):
@@ -700,6 +712,11 @@ func buildPlans(thorough bool) []planSpec {
 		add("reshuffle", init, "loss1", 1, true, b-1)
 	}
 	add("reshuffle", "OLIII", "err", 1, true, b-1)
+	// more simultaneous completions than the evaluator's completion channel buffers
+	add("wide", strings.Repeat("I", 11), "ok", 1, true, b-1)
+	add("wide", strings.Repeat("I", 11), "loss1", 1, true, b-1)
+	add("wide", strings.Repeat("L", 10)+"I", "loss1", 1, true, b-1)
+	add("wide", strings.Repeat("I", 11), "loss1", 2, true, 0)
 	add("reshuffle", "IIIII", "chaos1", 1, true, b-1)
 	add("single", "I", "loss4", 1, true, b)
 	add("single", "I", "loss4", 2, true, b)
